@@ -20,7 +20,10 @@ package keyid
 //@ ghost func jsReqUser(s string) string
 //@ ghost func jsReqIP(s string) string
 //@ ghost func jsReqHost(s string) string
-//@ ghost func jsPrins(s string) bytes
+//@ ghost func jsPrinsLen(s string) int
+//@ ghost func jsPrins(s string) strs
+//@ # the JSON text encoding/json produces for a KeyID value
+//@ ghost func enc(prins strs, nprins int, transID string, reqUser string, reqIP string, reqHost string, ff bool, hw bool, headless bool, nonce bool, usage int, touch int, ver int) string
 
 //@ # --- consistency rule of the property statement (C05)
 //@ ghost func cons(headless bool, nonce bool, hw bool, ff bool, touch int) bool =
@@ -42,6 +45,31 @@ package keyid
 //@ ghost func decTouch(s string) int = jsTouch(s)
 //@ ghost func decTransID(s string) string = jsTransID(s)
 
+//@ func sanityCheckerHeadless(k)
+//@   requires k != nil
+//@   ensures result == nil <==> (k.IsHeadless ==> !k.IsHWKey && !k.IsFirefighter && k.TouchPolicy == 1)
+
+//@ func sanityCheckerNonce(k)
+//@   requires k != nil
+//@   ensures result == nil <==> (k.IsNonce ==> !k.IsFirefighter && !k.IsHeadless && k.TouchPolicy == 1)
+
+//@ # the version-1 checker stored in sanityCheckerByVersion
+//@ func init$1(id)
+//@   requires id != nil
+//@   ensures result == nil <==> cons(id.IsHeadless, id.IsNonce, id.IsHWKey, id.IsFirefighter, id.TouchPolicy)
+
+//@ func New()
+//@   ensures result != nil && fresh(result) && result.Version == 1
+//@   ensures !result.IsHeadless && !result.IsNonce && !result.IsHWKey && !result.IsFirefighter
+//@   ensures result.TouchPolicy == 0 && result.Usage == 0 && result.Principals == nil
+
+//@ func (*KeyID).Marshal(kid)
+//@   requires kid != nil
+//@   ensures err == nil <==> (kid.Version == 1 && cons(kid.IsHeadless, kid.IsNonce, kid.IsHWKey, kid.IsFirefighter, kid.TouchPolicy))
+//@   ensures err == nil ==> result == enc(elems(kid.Principals), len(kid.Principals), kid.TransID, kid.ReqUser, kid.ReqIP, kid.ReqHost,
+//@     kid.IsFirefighter, kid.IsHWKey, kid.IsHeadless, kid.IsNonce, kid.Usage, kid.TouchPolicy, kid.Version)
+//@   ensures err != nil ==> result == ""
+
 //@ func Unmarshal(kidStr)
 //@   ensures err == nil <==> decOK(kidStr)
 //@   ensures err != nil ==> result == nil
@@ -51,5 +79,37 @@ package keyid
 //@     result.TouchPolicy == jsTouch(kidStr) && result.Usage == jsUsage(kidStr) && result.Version == 1 &&
 //@     result.TransID == jsTransID(kidStr) && result.ReqUser == jsReqUser(kidStr) &&
 //@     result.ReqIP == jsReqIP(kidStr) && result.ReqHost == jsReqHost(kidStr)
+//@   ensures err == nil ==> len(result.Principals) == jsPrinsLen(kidStr) &&
+//@     forall(i, 0 <= i && i < jsPrinsLen(kidStr), result.Principals[i] == jsPrins(kidStr)[i])
 //@   ensures err == nil ==> cons(result.IsHeadless, result.IsNonce, result.IsHWKey, result.IsFirefighter, result.TouchPolicy)
 //@   ensures err == nil ==> hasRequired(kidStr)
+//@   loop 1:
+//@     invariant forall(j, 0 <= j && j <= rangeindex, jsonHasKey(kidStr, requiredKeys[j]))
+
+//@ # --- pinned content of the package tables (C05: required fields per version, checker per version)
+//@ table requiredKeysByVersion: forall(v, 0 <= v && v < 65536, (v in dom(requiredKeysByVersion)) <==> v == 1) &&
+//@   len(requiredKeysByVersion[1]) == 11 &&
+//@   requiredKeysByVersion[1][0] == "prins" && requiredKeysByVersion[1][1] == "transID" && requiredKeysByVersion[1][2] == "reqUser" &&
+//@   requiredKeysByVersion[1][3] == "reqIP" && requiredKeysByVersion[1][4] == "reqHost" && requiredKeysByVersion[1][5] == "isFirefighter" &&
+//@   requiredKeysByVersion[1][6] == "isHWKey" && requiredKeysByVersion[1][7] == "isHeadless" && requiredKeysByVersion[1][8] == "isNonce" &&
+//@   requiredKeysByVersion[1][9] == "touchPolicy" && requiredKeysByVersion[1][10] == "ver"
+//@ table sanityCheckerByVersion: forall(v, 0 <= v && v < 65536, (v in dom(sanityCheckerByVersion)) <==> v == 1) &&
+//@   sanityCheckerByVersion[1] == init$1
+
+//@ # --- round trip: decoding the encoder's output gives back an equal KeyID
+//@ # (rests on the assumed encoding/json round-trip axioms in /verif/external/json.spec)
+//@ lemma keyid_roundtrip(prins strs, n int, transID string, reqUser string, reqIP string, reqHost string, ff bool, hw bool, headless bool, nonce bool, usage int, touch int):
+//@   (0 <= n && cons(headless, nonce, hw, ff, touch)) ==>
+//@   (decOK(enc(prins, n, transID, reqUser, reqIP, reqHost, ff, hw, headless, nonce, usage, touch, 1)) &&
+//@    jsNonce(enc(prins, n, transID, reqUser, reqIP, reqHost, ff, hw, headless, nonce, usage, touch, 1)) == nonce &&
+//@    jsFF(enc(prins, n, transID, reqUser, reqIP, reqHost, ff, hw, headless, nonce, usage, touch, 1)) == ff &&
+//@    jsHW(enc(prins, n, transID, reqUser, reqIP, reqHost, ff, hw, headless, nonce, usage, touch, 1)) == hw &&
+//@    jsHeadless(enc(prins, n, transID, reqUser, reqIP, reqHost, ff, hw, headless, nonce, usage, touch, 1)) == headless &&
+//@    jsTouch(enc(prins, n, transID, reqUser, reqIP, reqHost, ff, hw, headless, nonce, usage, touch, 1)) == touch &&
+//@    jsUsage(enc(prins, n, transID, reqUser, reqIP, reqHost, ff, hw, headless, nonce, usage, touch, 1)) == usage &&
+//@    jsTransID(enc(prins, n, transID, reqUser, reqIP, reqHost, ff, hw, headless, nonce, usage, touch, 1)) == transID &&
+//@    jsReqUser(enc(prins, n, transID, reqUser, reqIP, reqHost, ff, hw, headless, nonce, usage, touch, 1)) == reqUser &&
+//@    jsReqIP(enc(prins, n, transID, reqUser, reqIP, reqHost, ff, hw, headless, nonce, usage, touch, 1)) == reqIP &&
+//@    jsReqHost(enc(prins, n, transID, reqUser, reqIP, reqHost, ff, hw, headless, nonce, usage, touch, 1)) == reqHost &&
+//@    jsPrinsLen(enc(prins, n, transID, reqUser, reqIP, reqHost, ff, hw, headless, nonce, usage, touch, 1)) == n &&
+//@    forall(i, 0 <= i && i < n, jsPrins(enc(prins, n, transID, reqUser, reqIP, reqHost, ff, hw, headless, nonce, usage, touch, 1))[i] == prins[i]))
